@@ -5,27 +5,23 @@ CONSTANTS
   T = "t"
   F = "f"
   AuthorOrder <- MC_AuthorOrder
-  RemoteBodies <- MC_RemoteBodies2
-  RemotePrunes <- MC_RemotePrunes2
+  RemoteBodies <- MC_RemoteBodiesQ
+  RemotePrunes <- MC_RemotePrunesQ
   Policies = {"auto", "explicit"}
   ResetHeights <- MC_ResetHeights
-  Defect_ReadBeforePermit = FALSE
+  Defect_ReadBeforePermit = TRUE
   MaxPub = 2
-  MaxPrune = 1
-  MaxImp = 1
-  MaxAck = 3
-  MaxForeign = 1
-  MaxReset = 1
-  MaxCrash = 1
+  MaxPrune = 0
+  MaxImp = 0
+  MaxAck = 2
+  MaxForeign = 0
+  MaxReset = 0
+  MaxCrash = 0
   MinWork = 0
   Controlled = FALSE
 INVARIANTS
   TypeOK
-  CursorIsMaxOfAcked
-  OnlyOwnTopicAcked
-  ForeignNeverPastCheck
 PROPERTIES
   MC_CursorMonotone
-  MC_ForeignTopicRejected
 VIEW NoHistView
 CHECK_DEADLOCK FALSE
